@@ -4,7 +4,6 @@
 -/
 import MotoModel.Proofs.DiskCount
 import MotoModel.Props.C20
-import MotoModel.Props.C02
 namespace Moto.Disk
 open Moto Moto.Tape
 
@@ -382,6 +381,6 @@ theorem fileEvents_shape (name ext : Str) (kind flag : Nat) (data : Bytes) : ∀
 theorem evOf_facts (name ext : Str) (kind flag : Nat) (data : Bytes) :
     (evOf name ext kind flag data).bytes = data.length ∧ (evOf name ext kind flag data).blocks = reqBlocks data.length
     ∧ (evOf name ext kind flag data).name = name ∧ (evOf name ext kind flag data).ext = ext :=
-  ⟨rfl, (Moto.C02.block_count data.length).symm, rfl, rfl⟩
+  ⟨rfl, (reqBlocks_formula data.length).symm, rfl, rfl⟩
 
 end Moto.Disk
